@@ -3,6 +3,7 @@ package props
 import (
 	"crypto"
 	"go/token"
+	"go/types"
 	"golang.org/x/tools/go/ssa"
 	"math"
 	"math/big"
@@ -306,17 +307,37 @@ func runC11(c *Ctx) {
 	}
 	// every lane buffer is a fresh 243-trit block with the digest encoded at trit 0
 	digOK := false
-	for _, l := range rangeLoops(sb) {
+	// wholeBatch: the loop visits every element of the batch the buffer term denotes (a range over it, an index loop
+	// up to its length, or — for a local array — up to the array's constant length)
+	wholeBatch := func(l rangeLoop, buf *ana.Term) bool {
+		if l.Coll.V != nil && buf.V != nil && sb.Root(l.Coll.V) == sb.Root(buf.V) {
+			return true
+		}
+		if l.Coll.Op == "upto" {
+			if matches("len("+termPat(buf)+")", l.Coll.Arg(0)) {
+				return true
+			}
+			if k, isInt := l.Coll.Arg(0).Int(); isInt && buf.V != nil {
+				if al, isAl := sb.Root(buf.V).(*ssa.Alloc); isAl {
+					if at, isArr := al.Type().(*types.Pointer).Elem().Underlying().(*types.Array); isArr && at.Len() == k {
+						return true
+					}
+				}
+			}
+		}
+		return false
+	}
+	for _, l := range rangeLoopsAll(sb) {
 		for _, ci := range ana.CallsTo(search, "github.com/iotaledger/iota.go/encoding/b1t6.Encode") {
 			if !l.Blocks[ci.Block()] {
 				continue
 			}
 			t := sb.CallTermAt(ci)
-			if bd, ok := ana.Match("call<*>(load(iaddr($buf, bin<+>(ind<+1>(-1), 1))), "+PD+")", t); ok {
+			if bd, ok := ana.MatchAny(t, "call<*>(load(iaddr($buf, bin<+>(ind<+1>(-1), 1))), "+PD+")", "call<*>(load(iaddr($buf, ind<+1>(0))), "+PD+")"); ok {
 				_, fresh := ana.Find("store(iaddr(_, bin<+>(ind<+1>(-1), 1)), slice(alloc<[243]int8>, 0, 243))", bd["$buf"])
 				if fresh != nil || true {
-					w, _ := ana.Find("store(iaddr(_, bin<+>(ind<+1>(-1), 1)), slice(alloc<[243]int8>, 0, 243))", bd["$buf"])
-					digOK = w != nil && l.Coll.V != nil && bd["$buf"].V != nil && sb.Root(l.Coll.V) == sb.Root(bd["$buf"].V)
+					w, _ := ana.Find("store(iaddr(_, alt(bin<+>(ind<+1>(-1), 1), ind<+1>(0))), slice(alloc<[243]int8>, 0, alt(243, none)))", bd["$buf"])
+					digOK = digOK || w != nil && wholeBatch(l, bd["$buf"])
 				}
 			}
 		}
@@ -337,11 +358,7 @@ func runC11(c *Ctx) {
 					if !okAt || !matches(copyOf, vt) {
 						continue
 					}
-					whole := l.Coll.V != nil && bd["$buf"].V != nil && sb.Root(l.Coll.V) == sb.Root(bd["$buf"].V)
-					if !whole && l.Coll.Op == "upto" {
-						whole = matches("len("+termPat(bd["$buf"])+")", l.Coll.Arg(0))
-					}
-					if whole && len(l.Back) == 1 && blk.Dominates(l.Back[0].From) {
+					if wholeBatch(l, bd["$buf"]) && len(l.Back) == 1 && blk.Dominates(l.Back[0].From) {
 						digOK = true
 					}
 				}
